@@ -547,3 +547,67 @@ func init() {
 	register(&Scenario{Prop: "C12", Name: "c12/concurrent-reduced", Quick: []Bound{{0, 0}}, Thorough: []Bound{{1, 0}}, Body: c12Body(false, true), MinHB: 1, MaxSteps: 200000, BudgetQ: 20})
 	register(&Scenario{Prop: "C12", Name: "c12/concurrent-small-matrix", Quick: []Bound{{1, 0}}, Thorough: []Bound{{2, 0}}, Body: c12BodyS(false, true, true), MinHB: 1, MaxSteps: 200000, BudgetQ: 40})
 }
+
+// Conn.SetBufferSize is an option like the others: whenever it is called — right after the
+// connection was made, between calls, while a call is outstanding — the workload's outcome is
+// the same.  Runs over the real socket.NewMessages framing, whose SetBufferedInput is what
+// Conn.SetBufferSize ends up calling.
+func c12SetBufferSize(x *X) {
+	size := []int{16, 64, 1000}[x.Choose(3)]
+	when := x.Choose(3)
+	w := newWorld()
+	ce, se := newBytePipe()
+	so := srvOpts{bufSize: 64}
+	srv := newServer(w, so)
+	serveCodec(srv, framedIn(se), so)
+	conn := rpc.NewConnWithCodec(rpc.NewClientCodec(bytesCodec(), nil, framedIn(ce), 64))
+	var got []string
+	call := func(tag byte, n int) {
+		c := newUcall(tag, 0, n, formCall)
+		c.issue(conn)
+		switch {
+		case c.err != nil:
+			got = append(got, "E:"+c.err.Error())
+		case !eqBytes(c.reply, c.want()):
+			got = append(got, "WRONG")
+		default:
+			got = append(got, "ok")
+		}
+	}
+	switch when {
+	case 0:
+		conn.SetBufferSize(size)
+		call(1, 10)
+	case 1:
+		call(1, 10)
+		conn.SetBufferSize(size)
+	case 2:
+		g := newUcall(1, fGate, 10, formCall)
+		g.spawn(conn)
+		vs.Quiesce()
+		conn.SetBufferSize(size)
+		w.open(1)
+		vs.Quiesce()
+		if !g.ret || g.err != nil || !eqBytes(g.reply, g.want()) {
+			got = append(got, fmt.Sprintf("outstanding-call:%v/%v", g.ret, g.err))
+		} else {
+			got = append(got, "ok")
+		}
+	}
+	for i, n := range []int{size - 9, size, 3*size + 17, 5} {
+		if n < 2 {
+			n = 2
+		}
+		call(byte(2+i), n)
+	}
+	if want := []string{"ok", "ok", "ok", "ok", "ok"}; fmt.Sprint(got) != fmt.Sprint(want) {
+		x.Fail("C12/transcript-differs/set-buffer-size", "SetBufferSize(%d) called %s: transcript %v, expected %v", size, []string{"right after the connection was made", "after the first call", "while a call was outstanding"}[when], got, want)
+	}
+	x.Outcome("size=%d when=%d %v", size, when, got)
+	conn.Close()
+	vs.Quiesce()
+}
+
+func init() {
+	register(&Scenario{Prop: "C12", Name: "c12/set-buffer-size-any-time", Quick: []Bound{{0, 0}, {1, 0}}, Thorough: []Bound{{2, 0}}, Body: c12SetBufferSize, BudgetQ: 15})
+}
